@@ -22,6 +22,7 @@ class ValueProfile:
     use_interrupt = True
     use_nf = False
     use_reg = False  # a registrar client issues (mostly rejected) registrations inside the history
+    reg_forms = None
     worlds = [("W-POSC", 0.85), ("W-SIMPLE", 0.15)]
     limited_prob = 0.35
 
@@ -66,9 +67,16 @@ class ValueProfile:
                         "is_max_exclusive": rng.random() < 0.3,
                     }
                 )
+        dyn_units = []
+        if self.use_reg and world == "W-POSC" and rng.random() < 0.6:
+            for n in range(rng.choice([1, 1, 2])):
+                q, us, cs = rng.choice(basis)
+                dyn_units.append({"sym": "simU%d" % n, "name": "sim unit %d" % n, "qt": q, "k": rng.choice([2.0, 10.0, 0.25, 1000.0])})
         return {
             "prop": self.prop,
             "tier": tier,
+            "dyn_units": dyn_units,
+            "reg_forms": self.reg_forms,
             "world": world,
             "basis": [list(b) for b in basis],
             "n_steps": n_steps,
@@ -140,9 +148,14 @@ class ValueProfile:
         pass
 
 
+REG_FORMS_SAFE = ["unit_dup", "base_dup", "cat_dup", "cat_foreign_default", "cat_bad_limits", "cat_new", "cat_new", "cat_copy", "unit_new", "unit_new", "cat_override", "cat_override"]
+
+
 class C07(ValueProfile):
     prop = "C07"
-    client_bias = {"inspector": 1.5, "calculator": 1.5, "curator": 0.3}
+    use_reg = True
+    reg_forms = REG_FORMS_SAFE
+    client_bias = {"inspector": 1.5, "calculator": 1.5, "curator": 0.3, "registrar": 0.4}
     family_bias = {"curve": 0.2, "fixed": 0.4}
 
     def monitors(self, cfg):
@@ -173,8 +186,10 @@ class C07(ValueProfile):
 class C13(ValueProfile):
     prop = "C13"
     use_nf = True
+    use_reg = True
+    reg_forms = REG_FORMS_SAFE
     limited_prob = 0.6
-    client_bias = {"validator": 1.5, "persister": 1.5}
+    client_bias = {"validator": 1.5, "persister": 1.5, "registrar": 0.4}
 
     def monitors(self, cfg):
         return [Mon.VSweep("C13")]
@@ -194,6 +209,7 @@ class C05(ValueProfile):
     use_nf = True
     use_restart = False
     use_reg = True
+    reg_forms = ["unit_dup", "unit_dup", "base_dup", "cat_dup", "cat_foreign_default", "cat_foreign_valid", "cat_new", "cat_new", "cat_copy", "cat_bad_limits", "unit_new", "unit_new", "cat_override", "cat_retype", "cat_retype"]
     client_bias = {"saboteur": 3.0, "curator": 0.4, "registrar": 0.6}
     family_bias = {"curve": 0.2}
     flt_kinds = ["pair", "pair", "convert", "convert", "create", "create", "unknown"]
